@@ -33,6 +33,7 @@ from typing import (
 from abc import abstractmethod, ABCMeta
 import textwrap
 import threading
+import weakref
 import inspect
 import types
 import typing
@@ -41,16 +42,28 @@ if TYPE_CHECKING:
     from semantiva.logger import Logger
 
 
-# A thread-safe registry mapping category names to component classes
-_COMPONENT_REGISTRY: Dict[str, List[Type[_SemantivaComponent]]] = {}
+# A thread-safe registry mapping category names to component classes.
+# Classes are held weakly: node, adapter and preprocessor classes are generated for
+# every pipeline execution, and a strong registry would keep each of them alive for
+# the lifetime of the process.
+_COMPONENT_REGISTRY: Dict[str, List["weakref.ReferenceType[Type[_SemantivaComponent]]"]] = {}
 _REGISTRY_LOCK = threading.Lock()
 
 
 def get_component_registry() -> Dict[str, List[Type[_SemantivaComponent]]]:
     """
     Returns the global component registry, which maps component categories to their respective classes.
+
+    The returned mapping is a snapshot of the classes that are still alive, in
+    registration order.
     """
-    return _COMPONENT_REGISTRY
+    with _REGISTRY_LOCK:
+        snapshot: Dict[str, List[Type[_SemantivaComponent]]] = {}
+        for category, refs in _COMPONENT_REGISTRY.items():
+            alive = [(ref, ref()) for ref in refs]
+            refs[:] = [ref for ref, cls in alive if cls is not None]
+            snapshot[category] = [cls for _, cls in alive if cls is not None]
+        return snapshot
 
 
 class _SemantivaComponentMeta(ABCMeta):
@@ -75,7 +88,7 @@ class _SemantivaComponentMeta(ABCMeta):
                 return
             if cat:
                 with _REGISTRY_LOCK:
-                    _COMPONENT_REGISTRY.setdefault(cat, []).append(cls)
+                    _COMPONENT_REGISTRY.setdefault(cat, []).append(weakref.ref(cls))
 
 
 class _SemantivaComponent(metaclass=_SemantivaComponentMeta):
